@@ -26,15 +26,15 @@ func VP_C08_Reset() {
 	c1a, c1b := zzvp.Bytes("c1a", 1, ""), zzvp.Bytes("c1b", 1, "")
 	zzvp.WriteFile(w+"/"+f1, c1a)
 	zzvp.WriteFile(w+"/"+f2, c1b)
-	zzvp.Assume(zzvp.Run("add", f1, f2).Exit == 0)
-	zzvp.Assume(zzvp.Run("commit", "-m", "c1").Exit == 0)
+	vpOK(zzvp.Run("add", f1, f2))
+	vpOK(zzvp.Run("commit", "-m", "c1"))
 	first, _, _ := vpBranch("main")
-	zzvp.Assume(zzvp.Run("branch", "dev").Exit == 0)
+	vpOK(zzvp.Run("branch", "dev"))
 	c2a := zzvp.Bytes("c2a", 1, "")
 	zzvp.Assume(string(c2a) != string(c1a))
 	zzvp.WriteFile(w+"/"+f1, c2a)
-	zzvp.Assume(zzvp.Run("add", f1).Exit == 0)
-	zzvp.Assume(zzvp.Run("commit", "-m", "c2").Exit == 0)
+	vpOK(zzvp.Run("add", f1))
+	vpOK(zzvp.Run("commit", "-m", "c2"))
 	second, _, _ := vpBranch("main")
 	// perturb the work tree
 	untracked := w + "/" + vpComp("un", 1) + ".u"
